@@ -122,6 +122,13 @@ ExpectFail(cfg, e) ==
     e.e = "ret" /\ Has(cfg, "expectfail") /\ cfg.expectfail /\ e.p = 1 /\ ~(Has(e, "world") /\ e.world) /\ e.api \in {"get", "ensure", "gou"} =>
         ~e.ok \/ e.panic
 
+\* C13 (worlds in which the write cache holds value cfg.expectval for the key while read-only levels and populate hold others, and in
+\* which calls fail with errors that do NOT mean "gone"): a lookup of participant 1 either fails or returns the write cache's copy --
+\* a failing look at the write cache is an error, not a miss that lower levels or populate may answer
+ExpectVal(cfg, e) ==
+    e.e = "obs" /\ Has(cfg, "expectval") /\ e.p = 1 /\ Has(e, "handle") /\ Has(e.handle, "c") =>
+        Has(e.handle.c, "val") /\ e.handle.c.val = cfg.expectval
+
 \* ---- C05: no error, no panic (runs of this property inject nothing and use valid names)
 NoErr(e) == e.e = "ret" /\ ~(Has(e, "world") /\ e.world) => e.ok /\ ~e.panic
 
@@ -301,6 +308,15 @@ EffectPresent(cfg, s, e) ==
             LET i == s.fs.ents[d][cur.key] IN i \in DOMAIN s.fs.inos /\ ValueFor(s.fs.inos[i].c, cur.key) /\ s.fs.inos[i].c.val = cur.val
     ELSE IF e.api \in {"put", "put_tf"} THEN
         \E d \in DOMAIN s.fs.ents : IsWCacheDir(cfg, d) /\ cur.key \in DOMAIN s.fs.ents[d]
+    \* ensure (= get_or_update with Promote) leaves the key in the write cache, if there is one: populated on a miss, copied on a
+    \* read-only hit; a Replace that succeeds has stored the new value
+    ELSE IF e.api = "ensure" \/ (e.api = "gou" /\ Has(cur, "judge") /\ cur.judge = "promote") THEN
+        (\E r \in Roots(cfg) : r.role = "w") =>
+            \E d \in DOMAIN s.fs.ents : IsWCacheDir(cfg, d) /\ cur.key \in DOMAIN s.fs.ents[d]
+    ELSE IF e.api = "gou" /\ Has(cur, "judge") /\ cur.judge = "replace" /\ Has(cur, "val") THEN
+        (\E r \in Roots(cfg) : r.role = "w") =>
+            \E d \in DOMAIN s.fs.ents : IsWCacheDir(cfg, d) /\ cur.key \in DOMAIN s.fs.ents[d] /\
+                LET i == s.fs.ents[d][cur.key] IN i \in DOMAIN s.fs.inos /\ ValueFor(s.fs.inos[i].c, cur.key) /\ s.fs.inos[i].c.val = cur.val
     ELSE TRUE
 FaultOK(cfg, s, e) ==
     e.e = "ret" /\ e.p \in DOMAIN s.cur /\ ~(Has(e, "world") /\ e.world) /\ FaultedOp(s, e) =>
@@ -388,6 +404,13 @@ SeqMapOK(cfg, s, e) ==
             ELSE r.res = "true"
         ELSE IF Has(cfg, "rokeys") /\ k \in SeqSet(cfg.rokeys) THEN TRUE
         ELSE r.res \in {"none", "false"}
+\* C11 (sequential use; whatever the files contain -- an empty file is a value like any other): a lookup of a key that the write cache
+\* holds returns the write cache's file, never a copy from a read-only level
+WriteSideFirst(cfg, s, e) ==
+    IsSeq(cfg) /\ e.e = "obs" /\ e.api = "get" /\ Has(e, "handle") /\ e.p \in DOMAIN s.cur /\ Has(s.cur[e.p], "key") =>
+        LET k == s.cur[e.p].key
+            ws == {s.fs.ents[d][k] : d \in {x \in DOMAIN s.fs.ents : IsWCacheDir(cfg, x) /\ k \in DOMAIN s.fs.ents[x]}}
+        IN ws # {} => HandleInode(s, e) \in ws
 \* C11: an entry disappears only in an operation that ran maintenance (whose choice PruneOK judges)
 UnexplainedLoss(cfg, s, e, s2) ==
     IsSeq(cfg) /\ e.e = "ret" /\ ~(Has(e, "world") /\ e.world) =>
